@@ -141,7 +141,7 @@ def run_tlc(module, cfg, env=None, workers=None, timeout=3600, simulate=None, ex
     workers = workers or NCPU
     scratch = tempfile.mkdtemp(prefix="verif_tlc_")
     out = os.path.join(scratch, "stdout.txt")
-    cmd = ["java", "-XX:+UseParallelGC", "-Xss16m"] + (jvm or []) + ["-cp", TLA_CP, "tlc2.TLC",
+    cmd = ["java", "-XX:+UseParallelGC", "-XX:ParallelGCThreads=4", "-Xms2g", "-Xmx12g", "-Xss32m"] + (jvm or []) + ["-cp", TLA_CP, "tlc2.TLC",
            "-workers", str(workers), "-metadir", os.path.join(scratch, "meta"), "-noGenerateSpecTE",
            "-config", cfg]
     if coverage:
@@ -258,7 +258,7 @@ class Ctx:
             print("  call_site=%s tags=%s detail=%s" % (v["call_site"], v["tags"], json.dumps(v["detail"], default=str)[:400]))
         if len(real) > len(paths):
             print("  (%d further deviations of the same kinds not written out)" % (len(real) - len(paths)))
-        if not self.replay_mode:
+        if not self.replay_mode and not os.environ.get("VERIF_NO_EVIDENCE"):
             self.write_evidence(len(real), sorted(printed))
         return 1 if real else 0
 
